@@ -721,7 +721,7 @@ sc_package_set_abort_alloc_mismatch (int package_id, int set_abort)
 }
 
 int
-sc_memory_check_noabort (int package)
+sc_memory_check_noerr (int package)
 {
   int                 num_errors = 0;
 
@@ -773,7 +773,7 @@ sc_query_doabort (int package)
 void
 sc_memory_check (int package)
 {
-  if (sc_memory_check_noabort (package)) {
+  if (sc_memory_check_noerr (package)) {
     SC_CHECK_ABORT (!sc_query_doabort (package), "Memory and counter check");
   }
 }
@@ -1216,7 +1216,7 @@ sc_package_unregister_noabort (int package_id)
   }
   else {
     /* examine counter consistency */
-    num_errors += sc_memory_check_noabort (package_id);
+    num_errors += sc_memory_check_noerr (package_id);
 
     /* clean internal package structure */
     p = sc_packages + package_id;
@@ -1379,7 +1379,7 @@ sc_finalize_noabort (void)
       num_errors += sc_package_unregister_noabort (i);
 
   SC_ASSERT (sc_num_packages == 0);
-  num_errors += sc_memory_check_noabort (-1);
+  num_errors += sc_memory_check_noerr (-1);
 
   free (sc_packages);
   sc_packages = NULL;
